@@ -60,6 +60,12 @@ CHECKS = {
  'C17': dict(level='model_checking', replay_py='python3-vt', technique='symbolic execution (z3): JsonBoardSettingWriter -> schema -> JsonParser on a symbolic board; PBN import files rendered from layouts with symbolic content and parsed by the real PbnParser (sre-semantics regex model)',
              text='JSON: as C12 for board settings (0..3 boards, one symbolic incl. dda). PBN: for each layout (blank-line runs incl. blank/tab lines, LF/CRLF, tag order, additional tags, % headers, table rows) a symbolic board (dealer, vulnerability in all seven accepted spellings, first seat, id of symbolic characters incl. adjacent spaces) is read back by the real parser with the same deal, dealer, vulnerability and id, one board per game in order.',
              note='Layouts are a finite list (4 fixed + seeded); the content inside a layout is symbolic. PBN comments are not generated. Deal-line hand codec by contract (C14).', ref='§4 C17'),
+ 'C10': dict(level='model_checking', technique='symbolic execution (z3) of Server.deal and of ONE iteration of the auction and play relay loops cut from the source (arbitrary invariant state, symbolic call/card message built by the client code); message-by-message comparison of recorded session byte streams with an independent protocol transcript',
+             text='Main thread: for any state of the auction / play and any call / card message, the queues of the four seats receive exactly the turn announcement, the relayed text once for every seat but the sending connection (declarer when dummy plays), and dummy\'s own hand for the three other seats exactly after the opening lead; Server.deal queues the configured header and each seat\'s own hand. Seat threads and composition: every message of every connection of the recorded sessions equals the transcript computed from the boards, the seats\' own messages and the rules.',
+             note='The seat-thread code is covered through recorded sessions only (bounded to those sessions); schedule independence of the streams rests on C09. hand_to_str is an injective token here (its text: C19).', ref='§4 C10'),
+ 'C08': dict(level='model_checking', technique='symbolic execution (z3) of Server.run over symbolic boards with arbitrary phase results (assembly of the log record), loop-cut iterations of the auction/play loops, and field-by-field comparison of recorded session logs with a replay of the seats\' messages through reference rules',
+             text='Server.run interpreted from source: the k-th record carries the k-th board\'s id, dealer, original deal (the play consumes a copy), the auction/play/tricks returned for that board, scores = +/- calc_score(that contract, those tricks) by declarer\'s side, passed out => no play/tricks/zero scores, writer closed after the last record, End of session afterwards. One iteration of each phase loop: the call/card applied and recorded is the one the seat sent. Recorded sessions: log equals an independent replay; identical under two schedules.',
+             note='The rules themselves are C01-C07; JSON text is C12; schedule independence rests on C09 (re-checked per session by trace/log comparison).', ref='§4 C08'),
 }
 
 
